@@ -306,6 +306,28 @@ Section Specs.
       cbn zeta. assert (Ht2 : @top sops (core m) rf = v0) by exact Htop. rewrite !Ht2. split; [exact Hv|]. exists tl. split; [exact Vl|]. intro e. rewrite <- Sf. now rewrite (Hcof false).
   Qed.
 
+  (* top_cofactors(f, v) for v not below f's top variable: the two cofactors of f with respect to v *)
+  Theorem topcof_step_spec mr (hi : bool) f rf F v fuel mr' x :
+    reachable mr -> liveh mr f rf -> denotes mr rf F -> 0 < v -> (idx rf = 1 \/ v <= @top sops (store mr) rf) ->
+    mstep fuel mr (HTopCof hi f v) = Some (mr', x) ->
+    exists r, x = OReg r /\ newreg mr mr' r /\ frame mr mr' /\ store mr' = store mr /\ denotes mr' r (fun e => F (upd e v hi)).
+  Proof.
+    intros HR Lf (tf & Vf & Sf) Hv Hle Hs. destruct mr as [m rs]. open_step HR Hs m rs HI HC. rewrite Lf in Hs.
+    destruct (N.ltb_spec 0 v) as [_|]; [|lia].
+    assert (Hc : ((idx rf =? 1) || (v <=? @top sops (core m) rf)) = true).
+    { destruct Hle as [E|E]; [rewrite (proj2 (N.eqb_eq _ _) E); reflexivity|rewrite (proj2 (N.leb_le _ _) E); apply orb_true_r]. }
+    change (@top (ops nhash khash) (core m) rf) with (@top sops (core m) rf) in Hs. rewrite Hc in Hs. cbn [andb] in Hs. injection Hs as <- <-.
+    destruct (@top_cofactors sops (core m) rf v) as [r0 r1] eqn:Tc.
+    assert (Hm : tf = Leaf \/ v <= @top sops (core m) rf).
+    { destruct Hle as [E|E]; [left; eapply V_term; eauto|right; exact E]. }
+    destruct (tc_ok _ _ _ _ HI Vf Hm _ _ Tc) as (t0 & t1 & V0 & V1 & A0 & A1 & Sh & _).
+    assert (Hcof : forall b e, rsem rf tf (upd e v b) = if b then rsem r1 t1 e else rsem r0 t0 e).
+    { intros b e. rewrite Sh, upd_eq. destruct b; [apply (rsem_indep _ _ v v A1); lia|apply (rsem_indep _ _ v v A0); lia]. }
+    change (@top_cofactors (ops nhash khash) (core m) rf v) with (@top_cofactors sops (core m) rf v). rewrite Tc. cbn [fst snd].
+    exists (if hi then r1 else r0). split; [reflexivity|]. split; [reflexivity|]. split; [apply frame_push; apply sext_refl|]. split; [reflexivity|].
+    destruct hi; [exists t1|exists t0]; (split; [assumption|]); intro e; rewrite <- Sf; [now rewrite (Hcof true)|now rewrite (Hcof false)].
+  Qed.
+
   (* ---------------- C09: compose ---------------- *)
   Theorem compose_step_spec mr f g rf rg F G v fuel mr' x :
     reachable mr -> liveh mr f rf -> liveh mr g rg -> denotes mr rf F -> denotes mr rg G ->
